@@ -76,6 +76,14 @@ def texts_for(seed, quick):
 
 
 def syntax_family(ck, quick, seed):
+    # design level: every text over a 17-character alphabet up to 3 (thorough: 5) characters - the grammar is total, the
+    # end of the text is a line break, and two lines that are programs of their own compose except where the grammar
+    # reads across the line break (MC_Syntax.Glues states exactly where)
+    r = common.tlc("MC_Syntax", "MC_Syntax_quick.cfg" if quick else "MC_Syntax_thorough.cfg", ck.wd, workers=6, timeout=3000)
+    ck.add_tlc(r)
+    ck.extra.setdefault("mc", []).append({"module": "MC_Syntax", "states": r.distinct, "ok": r.ok})
+    if not r.ok:
+        ck.violation("MC:MC_Syntax:" + str(r.violated), r.out[-2500:], {"tlc": r.out[-6000:]})
     texts = texts_for(seed, quick)
     jobs = [{"mode": "parse", "texts": [t for _, t in texts[k:k + 200]]} for k in range(0, len(texts), 200)]
     results = common.run_jobs(jobs, ck.wd + "/parsejobs")
